@@ -242,4 +242,9 @@ def deciding(m):
 
 
 def extra_coverage(m):
-    return {"rules_total": len(m["rules_seen"]), "rules_fired": len([r for r in m["rules_fired"] if not r.startswith("<")])}
+    out = {"rules_total": len(m["rules_seen"]), "rules_fired": len([r for r in m["rules_fired"] if not r.startswith("<")])}
+    n = m["counts"].get("small_scope_inputs", 0)
+    if n:
+        tot = G.small_scope_total()
+        out.update({"small_scope_inputs": n, "small_scope_total": tot, "small_scope_enumerated_completely": n == tot})
+    return out
